@@ -43,7 +43,8 @@ type plan struct {
 	ClientProto string        `json:"clientProto"`
 	ClientEIH   bool          `json:"clientEIH"`
 	Topology    string        `json:"topology"` // direct | peer | chain
-	NSock       int           `json:"nsock"`
+	NSock       int           `json:"nsock"`    // target sockets (incl. the IPv6 one when V6)
+	V6          bool          `json:"v6"`       // the last target socket is on ::1
 	Dests       []planDest    `json:"dests"`
 	TunnelDest  int           `json:"tunnelDest"` // direct server: the fixed destination
 	Sessions    []planSession `json:"sessions"`
@@ -94,6 +95,7 @@ func drawPlan(rt *rapid.T) *plan {
 		}
 	}
 	p.NSock = rapid.IntRange(2, 4).Draw(rt, "nsock")
+	p.V6 = rapid.IntRange(0, 9).Draw(rt, "v6") < 4 // one of the sockets is [::1]:port
 	for s := 0; s < p.NSock; s++ {
 		p.Dests = append(p.Dests, planDest{Sock: s})
 	}
@@ -191,7 +193,7 @@ func (p *plan) class() string {
 	if names > 0 {
 		nb = "names+"
 	}
-	return fmt.Sprintf("%s|eih=%v|%s|rb=%d,%d|%s|ceih=%v|%s|sess=%d|socks=%d|%s|rebind=%v|burst=%v|g=%d|alt=%d",
+	return fmt.Sprintf("%s|eih=%v|%s|rb=%d,%d|%s|ceih=%v|%s|sess=%d|socks=%d|v6=%v|%s|rebind=%v|burst=%v|g=%d|alt=%d",
 		p.ServerProto, p.ServerEIH, p.BatchMode, p.RelayBatch, p.RecvBatch, p.ClientProto, p.ClientEIH, p.Topology,
-		len(p.Sessions), p.NSock, nb, rebind, burst, len(p.Garbage), p.AltEvery)
+		len(p.Sessions), p.NSock, p.V6, nb, rebind, burst, len(p.Garbage), p.AltEvery)
 }
